@@ -553,11 +553,16 @@ def bfs(acc, space, layer, init_name, init_model, make_obj, ops, depth, first_op
         key, case, obj = r
         if key not in seen:
             seen.add(key)
-            level.append((model, hist, case, obj, key))
+            level.append((model, hist, key))
     d = len(start[0][1])
     while level:
         nxt = []
-        for model, hist, case, obj, key in level:
+        for model, hist, key in level:
+            # live objects are not kept in the frontier (memory): the state's object is rebuilt from its history
+            case = {"kind": "history", "init": init_name, "ops": [core.jsonable(list(o)) for o in hist]}
+            obj, err = rebuild(hist)
+            if err is not None:
+                continue  # already reported when the state was first visited
             acc.add_key("states", prop + key)
             acc.count("states_visited")
             fails, status = check_roundtrip(model, obj)
@@ -605,7 +610,7 @@ def bfs(acc, space, layer, init_name, init_model, make_obj, ops, depth, first_op
                 if key2 in seen:
                     continue
                 seen.add(key2)
-                nxt.append((m2, h2, case2, obj2, key2))
+                nxt.append((m2, h2, key2))
         level = nxt
         d += 1
     acc.sample(layer, {"init": init_name, "first_op": core.jsonable(list(all_ops[first_op])) if first_op is not None else None, "distinct_states_in_shard": len(seen)})
